@@ -1527,11 +1527,17 @@ class TimePoint:
         if second_of_minute is not None or minute_of_hour is not None:
             new = new.to_hour_minute_second()
         if second_of_minute is not None:
-            if new._second_of_minute % 1:
+            # N.B. A time zone conversion of decimal hours or minutes can
+            # leave float noise in the seconds (59.99999999999): work to the
+            # microsecond, like the dumper.
+            seconds = round(new._second_of_minute, 6)
+            if seconds % 1:
                 # Not on a whole second, so the next match cannot be before
                 # the next whole second (and the loop below steps in whole
                 # seconds, so it would never reach the requested value).
-                new._second_of_minute = float(ceil(new._second_of_minute))
+                seconds = float(ceil(seconds))
+            if seconds != new._second_of_minute:
+                new._second_of_minute = seconds
                 new._tick_over()
             while new._second_of_minute != second_of_minute:
                 new._second_of_minute += 1.0
